@@ -55,7 +55,13 @@ func (g *Gen) doCall(st *State, c *ssa.Call) *Val {
 		ms := g.P.modSetOf(fn)
 		g.havocked = append(g.havocked, fmt.Sprintf("call %s (no contract)", key))
 		g.frameCheckOpaqueCall(st, c, ms, key)
-		return g.havocCall(st, c, ms, args)
+		res := g.havocCall(st, c, ms, args)
+		if g.P.returnsFreshNonNil(fn) && res != nil && (res.K == KPtr || res.K == KIface) {
+			// inferred from the callee's body: every return hands back the address of an object it allocated
+			g.assume(st.reach, not(eq(res.S, "0")))
+			g.knownNonNil[res.S] = true
+		}
+		return res
 	}
 	// a function-typed parameter declared `purefunc`: the call has no effect, only an arbitrary result
 	if g.spec != nil {
@@ -476,7 +482,16 @@ func (g *Gen) callWithSpec(st *State, c *ssa.Call, sp *FuncSpec, fn *ssa.Functio
 		}
 	}
 	for _, cl := range sp.Requires {
-		for _, part := range splitGoal(g.P.expand(cl.E)) {
+		ce := cl.E
+		if g.hooks != nil && g.hooks.paramsNonNil {
+			// the safety sweep relies on declared global invariants (decided by another check) instead of
+			// re-proving them at every call site
+			ce = g.dropGlobalInvs(ce)
+			if ce == nil {
+				continue
+			}
+		}
+		for _, part := range splitGoal(g.P.expand(ce)) {
 			t := g.evalBool(env, part)
 			lb := cl.Name
 			if lb == "" {
@@ -512,6 +527,30 @@ func (g *Gen) callWithSpec(st *State, c *ssa.Call, sp *FuncSpec, fn *ssa.Functio
 		g.frameCheckCall(st, pre, c, sp, env, calleeName)
 	}
 	return res
+}
+
+// dropGlobalInvs removes the conjuncts of e that are applications of a macro declared `globalinv`.
+func (g *Gen) dropGlobalInvs(e *SExpr) *SExpr {
+	if e == nil {
+		return nil
+	}
+	if e.Op == "call" && g.P.globalInvs[e.Name] && len(e.Args) == 0 {
+		g.notes = append(g.notes, "global invariant "+e.Name+"() relied upon at a call site (decided by the check that owns it)")
+		return nil
+	}
+	if e.Op == "bin" && e.Name == "&&" {
+		a, b := g.dropGlobalInvs(e.Args[0]), g.dropGlobalInvs(e.Args[1])
+		switch {
+		case a == nil:
+			return b
+		case b == nil:
+			return a
+		}
+		c := *e
+		c.Args = []*SExpr{a, b}
+		return &c
+	}
+	return e
 }
 
 func (g *Gen) bindResults(env *Env, results *types.Tuple, res *Val, fn *ssa.Function) {
